@@ -55,10 +55,26 @@ case "${1:-}" in
         harness/target/release/ohv run C04 thorough "${@:3}"; rc=$?
         [ $rc -eq 2 ] && exit 2
         c1=$(tools/fuzz_campaign.sh parse_total "${VERIF_FUZZ_RUNS:-200000}" 256 8); f1=$?
-        c2=$(tools/fuzz_campaign.sh consistency "${VERIF_FUZZ_RUNS:-200000}" 640 8); f2=$?
-        if [ $f1 -eq 2 ] || [ $f2 -eq 2 ]; then echo "$c1"; echo "$c2"; echo "INCONCLUSIVE: fuzz build failed"; exit 2; fi
-        tools/fuzz_merge.py "$c1" "$c2"; f3=$?
-        echo "[C04:libfuzzer] $c1" >&2; echo "[C04:libfuzzer] $c2" >&2
+        if [ $f1 -eq 2 ]; then echo "$c1"; echo "INCONCLUSIVE: fuzz build failed"; exit 2; fi
+        tools/fuzz_merge.py C04 "$c1"; f3=$?
+        echo "[C04:libfuzzer] $c1" >&2
+        if [ $rc -eq 1 ] || [ $f3 -eq 1 ]; then exit 1; fi
+        if [ $f3 -eq 2 ]; then exit 2; fi
+        exit 0
+        ;;
+    C01|C02|C05|C06|C07|C13|C16|C17)
+        build_harness
+        if [ "${2:-quick}" != "thorough" ]; then
+            exec harness/target/release/ohv run "$1" quick "${@:3}"
+        fi
+        # thorough: generated search, then a coverage-guided libFuzzer campaign whose target decodes the bytes with
+        # the same generators and runs this property's oracle
+        harness/target/release/ohv run "$1" thorough "${@:3}"; rc=$?
+        [ $rc -eq 2 ] && exit 2
+        c1=$(VERIF_FUZZ_ORACLE=$1 VERIF_FUZZ_SECONDS="${VERIF_FUZZ_SECONDS:-300}" tools/fuzz_campaign.sh consistency "${VERIF_FUZZ_RUNS:-100000}" 640 8); f1=$?
+        if [ $f1 -eq 2 ]; then echo "$c1"; echo "INCONCLUSIVE: fuzz build failed"; exit 2; fi
+        tools/fuzz_merge.py "$1" "$c1"; f3=$?
+        echo "[$1:libfuzzer] $c1" >&2
         if [ $rc -eq 1 ] || [ $f3 -eq 1 ]; then exit 1; fi
         if [ $f3 -eq 2 ]; then exit 2; fi
         exit 0
